@@ -7,7 +7,7 @@ D=/var/tmp/mxlpy-seedre-$ID-$$; rm -rf "$D"; mkdir -p "$D"
 rsync -a --exclude .git --exclude docs --exclude publication-figures /repo/ "$D/"
 (cd "$D" && patch -p1 -s < "$OUT/patch.diff") || { echo "patch does not apply"; rm -rf "$D"; exit 2; }
 MXLPY_VERIF_REPO="$D" /verif/check "$ID" --tier "$TIER" > "$OUT/check.log" 2>&1; RC=$?
-grep -E "^VIOLATION|^KNOWN-FINDING" "$OUT/check.log" | head -5 > "$OUT/check_verdict.txt"
+(grep -E "^VIOLATION" "$OUT/check.log" | head -4; grep -E "^KNOWN-FINDING" "$OUT/check.log" | cut -c1-200 | sort -u | head -6) > "$OUT/check_verdict.txt"
 REPLAY=$(grep -m1 -oE "replay=[^ ]+" "$OUT/check.log" | cut -d= -f2)
 [ -n "$REPLAY" ] && [ -f "$REPLAY" ] && cp "$REPLAY" "$OUT/replay.json"
 rm -rf "$D"
